@@ -81,10 +81,20 @@ def run(ctx):
         n = int(sizes[k % len(sizes)] if k < 2 * len(sizes) else rng.integers(2, 2001))
         integer = (k % 5 == 4)
         l, d, u, b = tdma_system(rng, n, integer)
-        if integer:
-            x = rd.tridiagonal_matrix_algorithm(l.astype(np.int64), d.astype(np.int64), u.astype(np.int64), b.astype(np.int64))
-        else:
-            x = rd.tridiagonal_matrix_algorithm(l, d, u, b)
+        if k % 7 == 3 and n >= 4:
+            # decoupled / bidiagonal systems: zeros on an off-diagonal in interior rows (still strictly diagonally dominant)
+            z_ = rng.integers(1, n - 1, max(1, n // 4))
+            (u if k % 2 else l)[z_] = 0.0
+            if k % 3 == 0: u[1:-1] = 0.0
+        try:
+            if integer:
+                x = rd.tridiagonal_matrix_algorithm(l.astype(np.int64), d.astype(np.int64), u.astype(np.int64), b.astype(np.int64))
+            else:
+                x = rd.tridiagonal_matrix_algorithm(l, d, u, b)
+        except Exception as ex:
+            ctx.fail("correspondence", f"tridiagonal_matrix_algorithm raised {type(ex).__name__} on a strictly diagonally dominant system (n={n}, integer={integer})",
+                     inp={"op": "tdma", "l": l, "d": d, "u": u, "b": b})
+            continue
         xm = D.floats("tdma " + " ".join(farr(v) for v in (l, d, u, b)))
         ctx.evaluations += 1
         if n >= 3 and np.any(b != 0):
@@ -134,7 +144,11 @@ def run(ctx):
 
 
 def stmt_tdma(rd, l, d, u, b):
-    x = rd.tridiagonal_matrix_algorithm(l, d, u, b)
+    try:
+        x = rd.tridiagonal_matrix_algorithm(l, d, u, b)
+    except Exception as ex:
+        return {"key": {"clause": "tdma_residual"}, "what": f"tridiagonal_matrix_algorithm raises {type(ex).__name__} on a strictly diagonally dominant system of size {l.size}",
+                "input": {"op": "tdma", "l": l, "d": d, "u": u, "b": b}}
     ok, w = residual_ok(l, d, u, b, x)
     if not ok or not np.all(np.isfinite(x)):
         return {"key": {"clause": "tdma_residual"}, "what": f"tridiagonal_matrix_algorithm: M x != b (relative residual {w:.2e}) on a strictly diagonally dominant system of size {l.size}",
@@ -231,7 +245,10 @@ def search(ctx):
     n_cases = 40 if (ctx.thorough or ctx.failures) else 8
     for k in range(n_cases):
         n = int(rng.integers(2, 600))
-        v = stmt_tdma(rd, *tdma_system(rng, n, k % 4 == 3))
+        sys_ = tdma_system(rng, n, k % 4 == 3)
+        if k % 3 == 1 and n >= 4:   # zeros on the super-/sub-diagonal of interior rows
+            (sys_[2] if k % 2 else sys_[0])[rng.integers(1, n - 1, max(1, n // 3))] = 0.0
+        v = stmt_tdma(rd, *sys_)
         if v: V.append(v)
         gk, r = grids(rng, max(n, 4))
         V += stmt_fd(rd, r)
